@@ -11,6 +11,8 @@ pub mod pshims {
     //      carrying the public key itself (jwk form) or the account URL `kid` (kid form)
     pub uninterp spec fn jwk_request(s: Seq<char>, key: KeyPair, payload: Seq<u8>, url: Seq<char>, nonce: Option<Seq<char>>) -> bool;
     pub uninterp spec fn kid_request(s: Seq<char>, key: KeyPair, kid: Seq<char>, payload: Seq<u8>, url: Seq<char>, nonce: Seq<char>) -> bool;
+    // the `alg` member of the protected header of JWS text `s` (the algorithm it is signed with)
+    pub uninterp spec fn signed_with(s: Seq<char>, alg: JwsSignatureAlgorithm) -> bool;
     // a JWS text has one decoding
     #[verifier::external_body]
     pub broadcast proof fn axiom_kid_request_functional(s: Seq<char>, k1: KeyPair, i1: Seq<char>, p1: Seq<u8>, u1: Seq<char>, n1: Seq<char>,
@@ -23,6 +25,7 @@ pub mod pshims {
     // the request built for account `a` on endpoint `en`: signed by the account's current key, kid = the account URL stored for that endpoint
     pub open spec fn kid_builder_ok(s: Seq<char>, a: &Account, en: Seq<char>, payload: Seq<u8>, url: Seq<char>, n: Seq<char>) -> bool {
         ep_of(*a, en) matches Some(ep) && kid_request(s, a.current_key.key, ep.account_url@, payload, url, n)
+        && signed_with(s, a.current_key.signature_algorithm)
     }
     pub mod jws {
         use vstd::prelude::*;
@@ -33,10 +36,10 @@ pub mod pshims {
         // jws.rs::encode_jwk / encode_kid (verified in unit jws)
         #[verifier::external_body]
         pub fn encode_jwk(key_pair: &KeyPair, sign_alg: &JwsSignatureAlgorithm, payload: &[u8], url: &str, nonce: Option<String>) -> (r: Result<String, Error>)
-            ensures r matches Ok(s) ==> jwk_request(s@, *key_pair, payload@, url@, match nonce { Some(n) => Some(n@), None => None }) { unimplemented!() }
+            ensures r matches Ok(s) ==> jwk_request(s@, *key_pair, payload@, url@, match nonce { Some(n) => Some(n@), None => None }) && signed_with(s@, *sign_alg) { unimplemented!() }
         #[verifier::external_body]
         pub fn encode_kid(key_pair: &KeyPair, sign_alg: &JwsSignatureAlgorithm, key_id: &str, payload: &[u8], url: &str, nonce: &str) -> (r: Result<String, Error>)
-            ensures r matches Ok(s) ==> kid_request(s@, *key_pair, key_id@, payload@, url@, nonce@) { unimplemented!() }
+            ensures r matches Ok(s) ==> kid_request(s@, *key_pair, key_id@, payload@, url@, nonce@) && signed_with(s@, *sign_alg) { unimplemented!() }
         }
     }
     // ---- what a request payload says (uninterpreted readings of the JSON text)
